@@ -400,7 +400,7 @@ Theorem mask_exact_lemma vw ta (xs : list value) (ms : list bool) :
   spec_mask vw ta xs (TNum DBool) (map VBool ms) =
   Ok (VList (map (fun p : value * bool => if Bool.eqb (snd p) vw then fst p else VNone) (zip xs ms))).
 Proof.
-  intros Hu Hlen. unfold spec_mask. rewrite Hu. cbn [orb has_union mask_leaf_ok negb].
+  intros Hu Hlen. unfold spec_mask. rewrite Hu. cbn [orb has_union mask_leaf_ok negb mask_tyck bind].
   unfold top_rows. cbn [fold_right map].
   assert (Hz : zlen (map VBool ms) = zlen xs) by (unfold zlen; rewrite map_length, Hlen; reflexivity).
   rewrite Hz.
@@ -758,7 +758,7 @@ Lemma with_field1_records k ks ts tw (rows : list (list (name * value))) (ws : l
       map (fun p : list (name * value) * value => VRec (remove_key k (fst p) ++ [(k, snd p)])) (zip rows ws)).
 Proof.
   intros Hu Hw Hrec Hts Hlen.
-  unfold with_field1. cbn [has_union has_record_node negb]. rewrite Hu, Hw.
+  unfold with_field1. cbn [has_union has_record_node negb]. rewrite Hu, Hw. cbn [wf_tyck bind].
   rewrite (top_rows_equal (length rows) [map VRec rows; ws]).
   2: discriminate.
   2:{ repeat constructor; [apply map_length | symmetry; exact Hlen]. }
